@@ -267,11 +267,14 @@ def unit_reserved(g, depth, last, eop_ok):
 def unit_system(g, depth, last, eop_ok):
     """SYSTEM parameter; for the predefined SYSPARAMs the DOP is able to hold the value odxtools supplies implicitly"""
     rng = g.rng
-    sp = rng.choice(["TIMESTAMP", "SECOND", "MINUTE", "HOUR", "DAY", "MONTH", "YEAR", "CENTURY", "TESTERID", "MYSYSPARAM", "MYSYSPARAM"])
+    # (round 9) user-defined SYSPARAMs include names that equal a predefined one up to case only: SYSPARAM values are case-sensitive, so
+    # `Year` is a user-defined system parameter -- required, no implicit value -- at every site that distinguishes the two kinds
+    sp = rng.choice(["TIMESTAMP", "SECOND", "MINUTE", "HOUR", "DAY", "MONTH", "YEAR", "CENTURY", "TESTERID", "MYSYSPARAM", "MYSYSPARAM",
+                     rng.choice(["Year", "year", "TesterId", "timestamp", "Day", "CENTURY_"])])
     hl = rng.choice([None, True, False])
     if sp in ("TIMESTAMP", "TESTERID"):
         dct = D.Std("A_BYTEFIELD", 64, None, hl)
-    elif sp == "MYSYSPARAM":
+    elif sp not in ("SECOND", "MINUTE", "HOUR", "DAY", "MONTH", "YEAR", "CENTURY"):
         dct = gen_std(rng, rng.choice(["A_UINT32", "A_BYTEFIELD"]), mask_ok=False)
     else:
         dct = D.Std("A_UINT32", rng.choice([16, 16, 12, 32, 13, 24]) if sp == "YEAR" else rng.choice([8, 8, 16, 7, 9, 32]), None, hl)
